@@ -44,7 +44,7 @@ LiveOK(rec) ==
            resps == {o \in r.outs : o.kind = "resp"}
            fwds == {o \in r.outs : o.kind = "forward" /\ OnServer(rec.st, o.where) # <<>>}
            IsResp(x, o) == x.who = o.who /\ x.data = o.data /\ x.chan = o.chan
-           IsFwd(x, o) == x.where = o.where /\ x.data = o.data /\ x.chan = Chan(rec.st)
+           IsFwd(x, o) == x.where = o.where /\ x.data = o.data /\ FindP(rec.st, x.who) # 0 /\ x.chan = Chan(rec.st, x.who)
        IN r.free \/
           /\ \A o \in r.outs : o.kind \in {"resp", "forward"}      \* only such requests are driven live
           /\ Len(rec.srv) = Cardinality(resps) + Cardinality(fwds)
